@@ -194,8 +194,8 @@ def run(res, tier):
     for s in starts:
         g0 = False
         for (cn, t) in guards(f, s):
-            n = A.strip_casts(cn)
-            if n['k'] == 'BinaryOperator' and n.get('op') == '==' and t and A.strip_casts(n['ch'][0]).get('d') == od and n['ch'][1].get('v') == 0:
+            z = A.zero_test(cn, t)
+            if z is not None and z[1] and z[0].get('d') == od:
                 g0 = True
         st_ok = st_ok and g0
     ob('start-at-zero: a receive state is created / re-targeted to a new message id only when the wire offset is 0', st_ok, '%d start sites' % len(starts),
@@ -263,11 +263,13 @@ def run(res, tier):
         if blk.cond is None or blk.cond not in g.nodes:
             continue
         cn = g.nodes[blk.cond]
-        if cn['k'] == 'BinaryOperator' and cn.get('op') == '<=' and A.strip_casts(cn['ch'][1]).get('n') == '_maxTransferUnit' and any(x.is_call() and (x.get('q') or '').endswith('::GetNumBytesWritten') for x in cn['ch'][0].walk()):
-            fit = (blk, cn)
+        for fit_truth in (True, False):
+            for (l_, op_, r_) in A.rel_forms(cn, fit_truth):
+                if op_ == '<=' and r_.get('n') == '_maxTransferUnit' and any(x.is_call() and (x.get('q') or '').endswith('::GetNumBytesWritten') for x in l_.walk()):
+                    fit = (blk, cn, l_, fit_truth)
     if fit is None:
         raise AnalysisBroken('FIT-ACCOUNT: the fit test of the mini tunnel sender was not found')
-    blk, cn = fit
+    blk, cn, fit_sum, fit_truth = fit
 
     def terms(e):
         e = A.strip_casts(e)
@@ -275,11 +277,18 @@ def run(res, tier):
             return terms(e['ch'][0]) + terms(e['ch'][1])
         return [e]
     always_c, first_c = 0, 0
-    for t in terms(cn['ch'][0]):
+    for t in terms(fit_sum):
         if 'v' in t:
             always_c += t['v']
         elif t['k'] == 'ConditionalOperator' and any(x.is_call() and (x.get('q') or '').endswith('::GetNumBytesWritten') for x in t['ch'][0].walk()):
-            first_c += (A.strip_casts(t['ch'][1]).get('v') or 0) + (A.strip_casts(t['ch'][2]).get('v') or 0)
+            # (written == 0) ? H : 0   in any spelling: the arm taken when nothing has been written yet, minus the other arm
+            zt = A.zero_test(t['ch'][0], True)
+            zf = A.zero_test(t['ch'][0], False)
+            arm_first = t['ch'][1] if (zt is not None and zt[1]) else (t['ch'][2] if (zf is not None and zf[1]) else None)
+            arm_other = t['ch'][2] if arm_first is t['ch'][1] else t['ch'][1]
+            if arm_first is not None:
+                first_c += (A.strip_casts(arm_first).get('v') or 0) - (A.strip_casts(arm_other).get('v') or 0)
+                always_c += (A.strip_casts(arm_other).get('v') or 0)
     W = {'WriteInt32': 4, 'WriteInt16': 2, 'WriteInt64': 8, 'WriteByte': 1, 'WriteInt8': 1}
     always_w, first_w = 0, 0
     for c in g.walk():
@@ -287,13 +296,13 @@ def run(res, tier):
             continue
         p = P.pos_of(g, c)
         gs = C.guards_of_block(g, p[0]) if p else []
-        if not any(cid == cn['i'] and t for (cid, t) in gs):
+        if not any(cid == cn['i'] and t == fit_truth for (cid, t) in gs):
             continue
         only_first = False
         for (cid, t) in gs:
             x = g.nodes[cid]
-            if x is not cn and x['k'] == 'BinaryOperator' and x.get('op') == '==' and t and any(y.is_call() and (y.get('q') or '').endswith('::GetNumBytesWritten') for y in x.walk()) \
-                    and any(A.strip_casts(y).get('v') == 0 for y in x['ch']):
+            z = A.zero_test(x, t) if x is not cn else None
+            if z is not None and z[1] and z[0].is_call() and (z[0].get('q') or '').endswith('::GetNumBytesWritten'):
                 only_first = True
         if only_first:
             first_w += W[(c.get('q') or '').split('::')[-1]]
